@@ -21,15 +21,15 @@ type signerT struct {
 }
 
 type hmacGen struct {
-	cfg   *hmacCfg
-	other *hmacCfg // the other header-name configuration (cross-name case)
-	sg    signerT
-	S     int64 // signed timestamp of the base request
-	full  bool  // thorough-tier extras
-	probe bool  // base request is a completeness probe
-	pairs bool  // also every 2-element mutation (thorough tier, selected bubbles)
-	nonce func() string
-	out   []*reqCase
+	cfg       *hmacCfg
+	other     *hmacCfg // the other header-name configuration (cross-name case)
+	sg        signerT
+	S         int64 // signed timestamp of the base request
+	full      bool  // thorough-tier extras
+	probe     bool  // base request is a completeness probe
+	pairsPart int   // >=0: emit only the base request and part k of the 2-element mutation sets
+	nonce     func() string
+	out       []*reqCase
 }
 
 func (g *hmacGen) ts() string { return strconv.FormatInt(g.S, 10) }
@@ -100,6 +100,37 @@ func (g *hmacGen) all() []*reqCase {
 	// ---- the unmodified request
 	g.emit("base", "", func(c *reqCase) { c.Probe = g.probe })
 
+	if g.pairsPart >= 0 {
+		n := 0
+		// every pair of single-bit flips in the signature text (130 816 cases)
+		for p := 0; p < len(sig)*8; p++ {
+			for q := p + 1; q < len(sig)*8; q++ {
+				if n++; n%pairsParts != g.pairsPart {
+					continue
+				}
+				b := []byte(sig)
+				b[p/8] ^= 1 << uint(p%8)
+				b[q/8] ^= 1 << uint(q%8)
+				v := string(b)
+				g.emit("sig:bitflip-pair", fmt.Sprintf("bits=%d,%d", p, q), func(c *reqCase) { setH(c, sigH, v) })
+			}
+		}
+		// every pair of single-bit flips in the body (8128 cases)
+		for p := 0; p < len(baseBody)*8; p++ {
+			for q := p + 1; q < len(baseBody)*8; q++ {
+				if n++; n%pairsParts != g.pairsPart {
+					continue
+				}
+				p, q := p, q
+				g.emit("body:bitflip-pair", fmt.Sprintf("bits=%d,%d", p, q), func(c *reqCase) {
+					c.Body[p/8] ^= 1 << uint(p%8)
+					c.Body[q/8] ^= 1 << uint(q%8)
+				})
+			}
+		}
+		return g.out
+	}
+
 	// ---- header presence
 	for _, h := range []struct{ label, name string }{{"sig", sigH}, {"ts", tsH}, {"nonce", nonceH}} {
 		name := h.name
@@ -164,28 +195,6 @@ func (g *hmacGen) all() []*reqCase {
 			b[i] ^= 1 << uint(bit)
 			v := string(b)
 			g.emit("sig:bitflip", fmt.Sprintf("char=%d,bit=%d", i, bit), func(c *reqCase) { setH(c, sigH, v) })
-		}
-	}
-	if g.pairs {
-		// every pair of single-bit flips in the signature text (130 816 cases)
-		for p := 0; p < len(sig)*8; p++ {
-			for q := p + 1; q < len(sig)*8; q++ {
-				b := []byte(sig)
-				b[p/8] ^= 1 << uint(p%8)
-				b[q/8] ^= 1 << uint(q%8)
-				v := string(b)
-				g.emit("sig:bitflip-pair", fmt.Sprintf("bits=%d,%d", p, q), func(c *reqCase) { setH(c, sigH, v) })
-			}
-		}
-		// every pair of single-bit flips in the body (8128 cases)
-		for p := 0; p < len(baseBody)*8; p++ {
-			for q := p + 1; q < len(baseBody)*8; q++ {
-				p, q := p, q
-				g.emit("body:bitflip-pair", fmt.Sprintf("bits=%d,%d", p, q), func(c *reqCase) {
-					c.Body[p/8] ^= 1 << uint(p%8)
-					c.Body[q/8] ^= 1 << uint(q%8)
-				})
-			}
 		}
 	}
 	// every single-character substitution over [0-9a-f]
@@ -403,7 +412,9 @@ var basicUsers = []struct{ User, Pass string }{
 	{"bob", "pa:ss:w0rd"},
 }
 
-func basicHeader(cred string) string { return "Basic " + base64.StdEncoding.EncodeToString([]byte(cred)) }
+func basicHeader(cred string) string {
+	return "Basic " + base64.StdEncoding.EncodeToString([]byte(cred))
+}
 
 func basicCases(route string, full bool) []*reqCase {
 	var out []*reqCase
